@@ -146,6 +146,9 @@ func runR40(c *Ctx) {
 			if !isUser {
 				return
 			}
+			if prm, ok := cc.Value.(*ssa.Parameter); ok && p.moduleSuppliedFuncParam(prm) {
+				return // a helper parametrised by module functions (fold(values, integer.Max)), not a user callback
+			}
 			// row callbacks only: option/config callbacks take a config pointer, not cells
 			if !loopsDone {
 				loops, loopsDone = loopsOf(fn), true
